@@ -193,6 +193,14 @@ def run_case(case):
         if is_tainted and opts.get('remove_builtin_exception_brackets') and r.rules.get('exception-brackets-removed') and pm_raw.star_import:
             viol(None, 'exception brackets removed in a module with a star import')
     # ------------------------------------------------------------------ structure needed beyond this point
+    elif prop == 'C06' and any(d['kind'] in C06_DIFFS for d in r.diffs):
+        for d in r.diffs:
+            if d['kind'] in C06_DIFFS:
+                viol(None, '%s at %s: %s -> %s' % (d['kind'], d['path'], d['p'], d['q']))
+        res['status'] = 'violation'
+        for v in res['violations']:
+            v['witness']['out'] = out[:1500]
+        return res
     elif r.diffs:
         return {'status': 'inconclusive', 'reason': 'structure-differs (decided by C05)'}
     if prop == 'C03':
@@ -207,7 +215,7 @@ def run_case(case):
         for p in r.problems:
             if p['kind'] in C03_KINDS:
                 mech = None
-                if p['kind'].startswith('class-body-global-fallback'):
+                if p['kind'].startswith('class-body-global-fallback') and p.get('enclosing_function_binds'):
                     mech = 'C03.class_body.global_fallback_in_function'
                 viol(mech, '%s: %s' % (p['kind'], p['detail']))
         if r.renames or r.aliases:
@@ -217,8 +225,12 @@ def run_case(case):
                 res['matrix']['renames_by_scope_kind'][rn['scope_kind']] = res['matrix']['renames_by_scope_kind'].get(rn['scope_kind'], 0) + 1
     if prop == 'C04':
         iv = matcher.interface_violations(r, opts)
+        declared_global = set(n for node in ast.walk(ptree) if isinstance(node, ast.Global) for n in node.names)
         for p in iv:
-            viol(None, '%s: %s' % (p['kind'], p['detail']))
+            mech = None
+            if p['kind'] == 'interface:never-bound-name' and p['detail'].split(' -> ')[0] in declared_global and opts.get('rename_globals'):
+                mech = 'C04.global_declared_never_bound'
+            viol(mech, '%s: %s' % (p['kind'], p['detail']))
         if r.renames or r.aliases:
             res['nontrivial'].append(common.sha(src) + '|' + common.opts_key(opts))
         res['counters']['identifier_pairs_checked'] = len(r.report.pairs)
